@@ -9,6 +9,7 @@ import (
 	"sort"
 	"strings"
 
+	"golang.org/x/tools/go/callgraph"
 	"golang.org/x/tools/go/packages"
 	"golang.org/x/tools/go/ssa"
 	"golang.org/x/tools/go/ssa/ssautil"
@@ -27,9 +28,11 @@ type World struct {
 	All    []*packages.Package          // module packages, sorted
 
 	allRoots []*packages.Package
+	cg       *callgraph.Graph
+	reach    map[*ssa.Function]bool
 	prog     *ssa.Program
-	ssaPkgs map[string]*ssa.Package
-	parents map[ast.Node]ast.Node
+	ssaPkgs  map[string]*ssa.Package
+	parents  map[ast.Node]ast.Node
 }
 
 type LoadOpts struct {
